@@ -324,7 +324,7 @@ func cmdCheck(args []string) {
 	}
 	trusted := append([]string{
 		"go/packages+go/types+go/ssa (x/tools v0.29.0) as front end of Go 1.23 semantics",
-		"govc symbolic executor and VC generator (/verif/govc), guarded by the must-fail corpus (/verif/selftest)",
+		"govc symbolic executor and VC generator (/verif/govc), guarded by the must-fail corpus (/verif/selftest/run.sh and the 51 seeded changes under /verif/seeded)",
 		"z3 5.1.0 (z3-new), cvc5 1.0.3, z3 4.8.12",
 	}, def.Trusted...)
 	assumptions := append([]string{
